@@ -77,10 +77,22 @@ def faulty(spec):
            any(op[0] == 'close' for ops in spec['clients'] for op in ops) or \
            (any(a[0] == 'other' for a in spec['server']) and spec.get('profile', 'default') in QUALIFY_OFF)
 
+def deadlock(sc):
+    """A thread that ends the run waiting for a lock nobody will release (locks are released by their holders in every
+    path of correct code), or a session thread blocked for ever."""
+    if sc.result != 'blocked':
+        return None
+    for name, (label, timed) in getattr(sc, 'blocked_at', {}).items():
+        if label == 'acq':
+            return ('thread %s is blocked for ever on a lock (deadlock): %s' % (name, 'the session thread can no longer fail or answer anything' if name == 'W' else 'the call never returns'), 'deadlock')
+    return None
+
 def oracle_c03(sc):
     """Each completed request holds the reply carrying its own id; ids unique; a late reply or a
     non-reply message disturbs nothing."""
     spec = sc.spec
+    d = deadlock(sc)
+    if d: return d
     if len(getattr(sc, 'reply_listeners', [])) > 1:
         return ('%d reply listeners were installed on one session: every reply is dispatched to each of them and the one that does not know the id raises' % len(sc.reply_listeners), 'two_listeners')
     ids = [rpc.id for _, rpc in sc.rpcs]
@@ -117,6 +129,8 @@ def oracle_c04(sc):
     (timeouts fire only at quiescence in these runs); afterwards the session is disconnected and
     new requests are refused with a transport error."""
     spec = sc.spec
+    d = deadlock(sc)
+    if d: return d
     # "under every schedule and fault a synchronous request returns or raises within its configured timeout":
     # the only place a call may block is a wait that has a time limit
     for name, (label, timed) in getattr(sc, 'blocked_at', {}).items():
@@ -170,6 +184,8 @@ def oracle_c04(sc):
 def oracle_c11(sc):
     """Every notification sent is taken exactly once, in order; never fails a request, never ends the session."""
     spec = sc.spec
+    d = deadlock(sc)
+    if d: return d
     sent = [a[1] for a in server_acts(spec, 'notif')]
     if not sent:
         return None
@@ -213,7 +229,9 @@ def oracle_c14(sc):
         for mid in sc.pending_end:
             if mid in sc.received:
                 return ('the session thread has stopped but request %s is still in the pending table (never failed)' % mid, 'stopped_pending')
-    killers = [a[0] for a in spec['server'] if a[0] in ('garbage', 'badutf8')]
+    answered = [a[1] for a in spec['server'] if a[0] in ('reply', 'dup')]
+    killers = [a[0] for a in spec['server'] if a[0] in ('garbage', 'badutf8', 'reply_unknown', 'reply_noid')] + \
+              ['dup' for k in set(answered) if answered.count(k) > 1]
     if killers and not spec.get('eager'):
         if sc.result == 'step-limit':
             return ('the session thread spins after the framing error', 'worker_spins')
@@ -269,6 +287,8 @@ def gen_spec(rng, pid):
         for k in answered:
             server.append(('reply', k))
         if rng.random() < 0.5: server.insert(rng.randint(0, len(server)), ('wait_all',))
+        if rng.random() < 0.15:
+            server.append(rng.choice([('reply_unknown',), ('reply_noid',)]))   # the server misbehaves, then hangs up
         if rng.random() < 0.35 and nreq - len(answered) > 0:     # the loss falls inside a message (and inside a character)
             rest = [k for k in order if k not in answered]
             server.append(('partial', rng.choice(rest), rng.choice([0, 1, 2, 3])))
@@ -378,6 +398,42 @@ def two_sessions_case():
         return 'session A took %r instead of its two notifications in order' % (xs,)
     return None
 
+def two_sessions_rpc_case():
+    """Two live sessions in one process with the library's own listener class: losing one session fails only ITS
+    outstanding request; the other session's request still gets its own reply."""
+    from . import lts
+    lts.uninstall()
+    try:
+        from ncclient.manager import make_device_handler
+        from ncclient.transport.session import Session
+        from ncclient.transport.errors import SessionCloseError
+        from ncclient.capabilities import Capabilities
+        from ncclient.operations.retrieve import Get
+        dh = make_device_handler({'name': 'default'})
+        class S0(Session):
+            def __init__(self):
+                Session.__init__(self, Capabilities(dh.get_capabilities())); self._device_handler = dh; self._connected = True; self.sent = []
+            def send(self, m): self.sent.append(m)
+            def run(self): pass
+            def close(self): self._connected = False
+        a, b = S0(), S0()
+        ra = Get(a, dh, async_mode=True, timeout=5); ra.request()
+        rb = Get(b, dh, async_mode=True, timeout=5); rb.request()
+        a._dispatch_error(SessionCloseError(b''))               # session A is lost
+        if rb.event.is_set() or rb.error is not None:
+            return 'losing one session failed a request outstanding on ANOTHER session (%r)' % (rb.error,)
+        if not ra.event.is_set() or ra.error is None:
+            return 'the request of the lost session was not failed'
+        try:
+            b._dispatch_message(lts.reply_xml(rb.id))
+        except Exception as e:
+            return 'the other session could not deliver its own reply after the first one was lost: %s: %s' % (type(e).__name__, e)
+        if rb.reply is None or rb.id not in rb.reply.xml:
+            return 'the other session\'s request did not receive its own reply'
+        return None
+    finally:
+        lts.install()
+
 def backlog_case(n=3000):
     """A backlog of untaken notifications must not block the session thread: n notifications are dispatched with no
     consumer (real queue.Queue, real Session code), then a reply must still be delivered to its request."""
@@ -421,12 +477,13 @@ def check(ctx, pid, n_random, dfs_bound, dfs_cap, corpus=(), model=None):
     """Common body of the C03 / C04 / C11 plugins (and of the session clause of C14, with its own LTS runner)."""
     oracle = ORACLES[pid]
     lts_model = model if model is not None else ctx.model
-    if pid == 'C11':
-        for name, fn in (('two_sessions', two_sessions_case), ('backlog', backlog_case)):
-            f = fn()
-            ctx.count({'check': name}, key=name)
-            if f:
-                ctx.fail({'check': name}, f, sig=None, expected='property C11', actual=f)
+    direct = {'C11': (('two_sessions', two_sessions_case), ('backlog', backlog_case)),
+              'C03': (('two_sessions_rpc', two_sessions_rpc_case),), 'C04': (('two_sessions_rpc', two_sessions_rpc_case),)}.get(pid, ())
+    for name, fn in direct:
+        f = fn()
+        ctx.count({'check': name}, key=name)
+        if f:
+            ctx.fail({'check': name}, f, sig=None, expected='property %s' % pid, actual=f)
     runs = []
     for doc in corpus:
         runs.append(run_case(doc['spec'], decisions=list(doc['decisions']), rng_after=False))
@@ -460,11 +517,12 @@ def check(ctx, pid, n_random, dfs_bound, dfs_cap, corpus=(), model=None):
 
 def search(ctx, pid, seeds, n=1500):
     oracle = ORACLES[pid]
-    if pid == 'C11':
-        for name, fn in (('two_sessions', two_sessions_case), ('backlog', backlog_case)):
-            f = fn()
-            if f:
-                return dict(case={'check': name}, what=f, sig=None, expected='property C11', actual=f)
+    direct = {'C11': (('two_sessions', two_sessions_case), ('backlog', backlog_case)),
+              'C03': (('two_sessions_rpc', two_sessions_rpc_case),), 'C04': (('two_sessions_rpc', two_sessions_rpc_case),)}.get(pid, ())
+    for name, fn in direct:
+        f = fn()
+        if f:
+            return dict(case={'check': name}, what=f, sig=None, expected='property %s' % pid, actual=f)
     for c in seeds:
         for extra in range(40):
             sc = run_case(c['spec'], decisions=list(c['decisions']) if extra == 0 else None, seed=extra, rng_after=(extra != 0))
@@ -486,8 +544,9 @@ def search(ctx, pid, seeds, n=1500):
 
 def replay(doc, pid):
     c = doc['case']
-    if c.get('check') in ('two_sessions', 'backlog'):
-        f = (two_sessions_case if c['check'] == 'two_sessions' else backlog_case)(); print(c['check'], ':', f or 'holds'); return f is None
+    if c.get('check') in ('two_sessions', 'backlog', 'two_sessions_rpc'):
+        f = {'two_sessions': two_sessions_case, 'backlog': backlog_case, 'two_sessions_rpc': two_sessions_rpc_case}[c['check']]()
+        print(c['check'], ':', f or 'holds'); return f is None
     spec = c['spec']
     spec['clients'] = [[tuple(op) for op in ops] for ops in spec['clients']]
     spec['server'] = [tuple(a) for a in spec['server']]
